@@ -7,13 +7,13 @@
 -/
 import PyGqlModel.Lemmas.C04Sim
 import PyGqlModel.Props.C04_refine
-import PyGqlModel.Lemmas.C04Dirs
+import PyGqlModel.Lemmas.C04SimErr
 
 set_option linter.unusedSimpArgs false
 set_option linter.unusedVariables false
 
 namespace PyGql.Props.C04
-open PyGql PyGql.Exec PyGql.Spec PyGql.Lemmas.C04Raise PyGql.Lemmas.C04Dirs
+open PyGql PyGql.Exec PyGql.Spec PyGql.Lemmas.C04Raise
 
 /-- **collect_refines_spec**: on selection lists equal up to repeated selections, if the model's `collect_fields`
     succeeds then so does the specification's `CollectFields`, with the same response keys in the same order and, key
@@ -34,6 +34,26 @@ theorem collect_refines_spec (s : SchemaD) (doc : Doc) (vars : Vars) (rk ek : St
       (by intro x hx; exact absurd hx (by simp)) (fun _ h => h) (by simp) (by intro F hF; simp at hF)
       (Nat.le_max_left _ _) (Nat.le_max_right _ _) hm
     refine ⟨addSeq [] qS, V', ?_, GRel_of_rep hr⟩
+    rw [collectFieldsS_eq_sseq, hs]; rfl
+
+/-- **collect_refines_spec_fail**: on selection lists equal up to repeated selections, if the model's `collect_fields`
+    fails with the `CoercionError` of a directive condition that cannot be evaluated (a list literal, a variable bound to
+    null), then so does the specification's `CollectFields` — named fragment spreads included. -/
+theorem collect_refines_spec_fail (s : SchemaD) (doc : Doc) (vars : Vars) (rk ek : String → Nat) (B : Nat) (hrk : Ranked doc rk ek B)
+    (n : Nat) (obj : String) (selsS selsM : List Sel) (hrep : Rep selsS selsM)
+    (h : collectFields s doc vars n obj selsM [] = .error (.internal "CoercionError")) :
+    collectFieldsS s doc vars n obj selsS [] = .error (.internal "CoercionError") := by
+  rw [collectFields_eq_mseq] at h
+  cases hm : mseq s doc vars n obj selsM [] with
+  | ok p => simp [hm, grp] at h
+  | error e =>
+    simp [hm, grp] at h
+    subst h
+    have hs := collect_simulation_fail s doc vars rk ek B hrk n obj selsS selsM (fun _ => False) (fun _ => False) [] []
+      (max (selsNeed rk selsM) (selsNeed rk selsS)) hrep
+      (by intro x hx; exact absurd hx (by simp)) (by intro x hx; exact absurd hx (by simp)) (by simp)
+      (by intro F hF; simp at hF) (by intro F hF; simp at hF)
+      (Nat.le_max_left _ _) (Nat.le_max_right _ _) hm
     rw [collectFieldsS_eq_sseq, hs]; rfl
 
 /-! ### lifting through the executor -/
@@ -57,11 +77,11 @@ theorem ErrsSim.refl (es : List Err) : ErrsSim es es := by
 
 abbrev ExecFn := String → Path → List Sel → R (Data × List Err)
 
-/-- the model's recursive executor is simulated by the specification's on inputs equal up to repeats whose directive
-    conditions can be evaluated: it yields no `ResolverError` of its own, and its results are the specification's -/
-def ExecSim (vars : Vars) (e eS : ExecFn) : Prop :=
-  ∀ rt p selsS selsM, Rep selsS selsM → selsEval vars selsM = true →
-    NotRaised (e rt p selsM) ∧
+/-- the model's recursive executor is simulated by the specification's on inputs equal up to repeats: a `ResolverError`
+    of its own (its selection set cannot be collected) is the specification's, and its results are the specification's -/
+def ExecSim (e eS : ExecFn) : Prop :=
+  ∀ rt p selsS selsM, Rep selsS selsM →
+    (∀ k l i, e rt p selsM = .error (.raised k l i) → eS rt p selsS = .error (.raised k l i)) ∧
     ∀ d es, e rt p selsM = .ok (d, es) → ∃ esS, eS rt p selsS = .ok (d, esS) ∧ ErrsSim esS es
 
 /-- simulation of one completion step, for both ways it can end -/
@@ -128,8 +148,8 @@ private theorem completeList_simR (f fS : Path → RVal → R (Data × List Err)
         | outOfFuel => simp [h2] at h
         | unsupported => simp [h2] at h
 
-private theorem completeValue_sim (s : SchemaD) (vars : Vars) (e eS : ExecFn) (he : ExecSim vars e eS) (nodesS nodesM : List FNode)
-    (hn : Rep nodesS nodesM) (hev : selsEval vars (mergedSelections nodesM) = true) :
+private theorem completeValue_sim (s : SchemaD) (e eS : ExecFn) (he : ExecSim e eS) (nodesS nodesM : List FNode)
+    (hn : Rep nodesS nodesM) :
     ∀ (t : Ty) (path : Path) (v : RVal) (d : Data) (es : List Err), completeValue s e nodesM t path v = .ok (d, es) →
       ∃ esS, completeValueS s eS nodesS t path v = .ok (d, esS) ∧ ErrsSim esS es := by
   have hmerged : Rep (mergeSelectionSets nodesS) (mergedSelections nodesM) := by
@@ -137,7 +157,7 @@ private theorem completeValue_sim (s : SchemaD) (vars : Vars) (e eS : ExecFn) (h
     exact hn.flatMap _
   have sub : ∀ rt path d es, e rt path (mergedSelections nodesM) = .ok (d, es) →
       ∃ esS, eS rt path (mergeSelectionSets nodesS) = .ok (d, esS) ∧ ErrsSim esS es :=
-    fun rt path d es h => (he rt path _ _ hmerged hev).2 d es h
+    fun rt path d es h => (he rt path _ _ hmerged).2 d es h
   intro t
   induction t with
   | nonNull t ih =>
@@ -270,16 +290,17 @@ private theorem completeValue_sim (s : SchemaD) (vars : Vars) (e eS : ExecFn) (h
 
 /-- `complete_value` interrupted by a `ResolverError` (a lazy iterable or `resolve_type` raising): the specification is
     interrupted the same way and keeps the same errors -/
-private theorem completeValue_simR (s : SchemaD) (vars : Vars) (e eS : ExecFn) (he : ExecSim vars e eS) (nodesS nodesM : List FNode)
-    (hn : Rep nodesS nodesM) (hev : selsEval vars (mergedSelections nodesM) = true) :
+private theorem completeValue_simR (s : SchemaD) (e eS : ExecFn) (he : ExecSim e eS) (nodesS nodesM : List FNode)
+    (hn : Rep nodesS nodesM) :
     ∀ (t : Ty) (path : Path) (v : RVal) (k : ErrKind) (l : Option (List Nat)) (inner : List Err),
       completeValue s e nodesM t path v = .error (.raised k l inner) →
       ∃ iS, completeValueS s eS nodesS t path v = .error (.raised k l iS) ∧ ErrsSim iS inner := by
   have hmerged : Rep (mergeSelectionSets nodesS) (mergedSelections nodesM) := by
     unfold mergeSelectionSets mergedSelections
     exact hn.flatMap _
-  have sub : ∀ rt path k l i, e rt path (mergedSelections nodesM) ≠ .error (.raised k l i) :=
-    fun rt path k l i => (he rt path _ _ hmerged hev).1 k l i
+  have sub : ∀ rt path k l i, e rt path (mergedSelections nodesM) = .error (.raised k l i) →
+      eS rt path (mergeSelectionSets nodesS) = .error (.raised k l i) :=
+    fun rt path k l i => (he rt path _ _ hmerged).1 k l i
   intro t
   induction t with
   | nonNull t ih =>
@@ -295,7 +316,7 @@ private theorem completeValue_simR (s : SchemaD) (vars : Vars) (e eS : ExecFn) (
   | list t ih =>
     intro path v k l inner h
     have hstep : StepSim (completeValue s e nodesM t) (completeValueS s eS nodesS t) :=
-      ⟨fun p v d es hh => completeValue_sim s vars e eS he nodesS nodesM hn hev t p v d es hh, fun p v k l i hh => ih p v k l i hh⟩
+      ⟨fun p v d es hh => completeValue_sim s e eS he nodesS nodesM hn t p v d es hh, fun p v k l i hh => ih p v k l i hh⟩
     cases v with
     | null => simp [completeValue] at h
     | leaf j => cases j <;> simp [completeValue] at h
@@ -333,7 +354,7 @@ private theorem completeValue_simR (s : SchemaD) (vars : Vars) (e eS : ExecFn) (
       | none => simp [hk] at h
       | some kd =>
         cases kd with
-        | object => simp only [hk] at h; exact absurd h (sub _ _ _ _ _)
+        | object => simp only [hk] at h; exact ⟨inner, by simp [completeValueS, hk, sub _ _ _ _ _ h], ErrsSim.refl _⟩
         | scalar => simp only [hk] at h; split at h <;> simp at h
         | enum => simp only [hk] at h; split at h <;> simp at h
         | _ => simp [hk] at h
@@ -343,7 +364,7 @@ private theorem completeValue_simR (s : SchemaD) (vars : Vars) (e eS : ExecFn) (
       | none => simp [hk] at h
       | some kd =>
         cases kd with
-        | object => simp only [hk] at h; exact absurd h (sub _ _ _ _ _)
+        | object => simp only [hk] at h; exact ⟨inner, by simp [completeValueS, hk, sub _ _ _ _ _ h], ErrsSim.refl _⟩
         | _ => simp [hk] at h
     | raise vs msg ext =>
       simp only [completeValue] at h
@@ -351,7 +372,7 @@ private theorem completeValue_simR (s : SchemaD) (vars : Vars) (e eS : ExecFn) (
       | none => simp [hk] at h
       | some kd =>
         cases kd with
-        | object => simp only [hk] at h; exact absurd h (sub _ _ _ _ _)
+        | object => simp only [hk] at h; exact ⟨inner, by simp [completeValueS, hk, sub _ _ _ _ _ h], ErrsSim.refl _⟩
         | interface =>
           simp [hk] at h
           obtain ⟨rfl, rfl, rfl⟩ := h
@@ -367,7 +388,7 @@ private theorem completeValue_simR (s : SchemaD) (vars : Vars) (e eS : ExecFn) (
       | none => simp [hk] at h
       | some kd =>
         cases kd with
-        | object => simp only [hk] at h; exact absurd h (sub _ _ _ _ _)
+        | object => simp only [hk] at h; exact ⟨inner, by simp [completeValueS, hk, sub _ _ _ _ _ h], ErrsSim.refl _⟩
         | scalar => simp [hk] at h
         | enum => simp [hk] at h
         | input => simp [hk] at h
@@ -377,7 +398,12 @@ private theorem completeValue_simR (s : SchemaD) (vars : Vars) (e eS : ExecFn) (
           | none => simp [hr] at h
           | some k2 =>
             cases k2 with
-            | object => simp only [hr] at h; split at h; exact absurd h (sub _ _ _ _ _); simp at h
+            | object =>
+              simp only [hr] at h
+              by_cases hp : isPossibleType s n rt
+              · simp only [hp, if_true] at h
+                exact ⟨inner, by simp [completeValueS, hk, hr, hp, sub _ _ _ _ _ h], ErrsSim.refl _⟩
+              · simp [hp] at h
             | _ => simp [hr] at h
         | union =>
           simp only [hk] at h
@@ -385,21 +411,23 @@ private theorem completeValue_simR (s : SchemaD) (vars : Vars) (e eS : ExecFn) (
           | none => simp [hr] at h
           | some k2 =>
             cases k2 with
-            | object => simp only [hr] at h; split at h; exact absurd h (sub _ _ _ _ _); simp at h
+            | object =>
+              simp only [hr] at h
+              by_cases hp : isPossibleType s n rt
+              · simp only [hp, if_true] at h
+                exact ⟨inner, by simp [completeValueS, hk, hr, hp, sub _ _ _ _ _ h], ErrsSim.refl _⟩
+              · simp [hp] at h
             | _ => simp [hr] at h
 
-private theorem executeGroups_sim (s : SchemaD) (vars : Vars) (w : World) (e eS : ExecFn) (he : ExecSim vars e eS) (parent : String) (path : Path) :
-    ∀ (gS gM : Grouped), GRel gS gM → GroupAllD (fun n => selsEval vars n.sub = true) gM →
-      ∀ (kvs : List (String × Data)) (es : List Err),
+private theorem executeGroups_sim (s : SchemaD) (w : World) (e eS : ExecFn) (he : ExecSim e eS) (parent : String) (path : Path) :
+    ∀ (gS gM : Grouped), GRel gS gM → ∀ (kvs : List (String × Data)) (es : List Err),
       executeGroups s w e parent path gM = .ok (kvs, es) →
       ∃ esS, executeGroupsS s w eS parent path gS = .ok (kvs, esS) ∧ ErrsSim esS es := by
   intro gS gM hrel
   induction hrel with
-  | nil => intro _ kvs es h; simp [executeGroups] at h; obtain ⟨rfl, rfl⟩ := h; exact ⟨[], by simp [executeGroupsS], .nil⟩
+  | nil => intro kvs es h; simp [executeGroups] at h; obtain ⟨rfl, rfl⟩ := h; exact ⟨[], by simp [executeGroupsS], .nil⟩
   | @cons key ss ms gS' gM' hr hrest ih =>
-    intro hga kvs es h
-    have hga' : GroupAllD (fun n => selsEval vars n.sub = true) gM' := fun kv hkv => hga kv (by simp [hkv])
-    have ih := ih hga'
+    intro kvs es h
     cases ms with
     | nil => simp [executeGroups] at h
     | cons node more =>
@@ -454,44 +482,45 @@ private theorem executeGroups_sim (s : SchemaD) (vars : Vars) (w : World) (e eS 
                     · simp at hr1
                     · rename_i v hw
                       simp only [hw]
-                      have hev : selsEval vars (mergedSelections (node :: more)) = true :=
-                        mergedSelections_eval vars _ (fun n hn => hga (key, node :: more) (by simp) n hn)
                       rcases catchField_eq_ok _ _ _ _ _ hr1 with hr1 | ⟨k, l, i, hc, rfl, rfl⟩
-                      · obtain ⟨s1, hs1, hrr1⟩ := completeValue_sim s vars e eS he (node :: moreS) (node :: more) hr hev fd.type _ v d1 e1 hr1
+                      · obtain ⟨s1, hs1, hrr1⟩ := completeValue_sim s e eS he (node :: moreS) (node :: more) hr fd.type _ v d1 e1 hr1
                         exact ⟨s1, by simp [hs1], hrr1⟩
-                      · obtain ⟨iS, hs1, hrr1⟩ := completeValue_simR s vars e eS he (node :: moreS) (node :: more) hr hev fd.type _ v k l i hc
+                      · obtain ⟨iS, hs1, hrr1⟩ := completeValue_simR s e eS he (node :: moreS) (node :: more) hr fd.type _ v k l i hc
                         exact ⟨_, by simp [hs1], hrr1.append (ErrsSim.refl _)⟩
                 obtain ⟨s1, hs1, hrr1⟩ := hfield
                 exact ⟨s1 ++ s2, by simp [hs1, hs2], hrr1.append hr2⟩
 
 /-- the executor model is simulated by the specification's executor at every fuel -/
 theorem executeFields_sim (s : SchemaD) (doc : Doc) (vars : Vars) (w : World) (rk ek : String → Nat) (B : Nat) (hrk : Ranked doc rk ek B)
-    (hde : DocEval doc vars) (cf : Nat) :
-    ∀ fuel : Nat, ExecSim vars (executeFields s doc vars w cf fuel) (executeSelectionSetS s doc vars w cf fuel) := by
+    (cf : Nat) : ∀ fuel : Nat, ExecSim (executeFields s doc vars w cf fuel) (executeSelectionSetS s doc vars w cf fuel) := by
   intro fuel
   induction fuel with
   | zero =>
-    intro rt p selsS selsM _ _
+    intro rt p selsS selsM _
     exact ⟨by intro k l i h; simp [executeFields] at h, by intro d es h; simp [executeFields] at h⟩
   | succ n ih =>
-    intro rt p selsS selsM hrep hev
-    refine ⟨executeFields_notRaised_of_eval s doc vars hde w cf (n + 1) rt p selsM hev, ?_⟩
-    intro d es h
-    simp only [executeFields, bind, Except.bind, pure, Except.pure] at h
-    cases h1 : collectFields s doc vars cf rt selsM [] with
-    | error er => simp [h1] at h
-    | ok p1 =>
-      obtain ⟨gM, seen'⟩ := p1
-      simp only [h1, catchDirective_ok] at h
-      obtain ⟨gS, v', hsS, hrel⟩ := collect_refines_spec s doc vars rk ek B hrk cf rt selsS selsM hrep gM seen' h1
-      have hga := (collect_eval s doc vars hde cf rt selsM [] hev).2 gM seen' h1
-      cases h2 : executeGroups s w (executeFields s doc vars w cf n) rt p gM with
-      | error er => simp [h2] at h
-      | ok p2 =>
-        simp [h2] at h
-        obtain ⟨rfl, rfl⟩ := h
-        obtain ⟨esS, hsG, hrr⟩ := executeGroups_sim s vars w _ _ ih rt p gS gM hrel hga _ _ h2
-        exact ⟨esS, by simp [executeSelectionSetS, bind, Except.bind, pure, Except.pure, hsS, hsG], hrr⟩
+    intro rt p selsS selsM hrep
+    refine ⟨?_, ?_⟩
+    · -- the selection set cannot be collected: a directive condition that cannot be evaluated, on both sides
+      intro k l i h
+      obtain ⟨rfl, rfl, rfl, hc⟩ := executeFields_raised s doc vars w cf (n + 1) rt p selsM k l i h
+      have hs := collect_refines_spec_fail s doc vars rk ek B hrk cf rt selsS selsM hrep hc
+      simp [executeSelectionSetS, bind, Except.bind, hs, Fail.directive]
+    · intro d es h
+      simp only [executeFields, bind, Except.bind, pure, Except.pure] at h
+      cases h1 : collectFields s doc vars cf rt selsM [] with
+      | error er => simp [h1] at h
+      | ok p1 =>
+        obtain ⟨gM, seen'⟩ := p1
+        simp only [h1, catchDirective_ok] at h
+        obtain ⟨gS, v', hsS, hrel⟩ := collect_refines_spec s doc vars rk ek B hrk cf rt selsS selsM hrep gM seen' h1
+        cases h2 : executeGroups s w (executeFields s doc vars w cf n) rt p gM with
+        | error er => simp [h2] at h
+        | ok p2 =>
+          simp [h2] at h
+          obtain ⟨rfl, rfl⟩ := h
+          obtain ⟨esS, hsG, hrr⟩ := executeGroups_sim s w _ _ ih rt p gS gM hrel _ _ h2
+          exact ⟨esS, by simp [executeSelectionSetS, bind, Except.bind, pure, Except.pure, hsS, hsG], hrr⟩
 
 /-- The refinement statement for ALL documents (named fragment spreads included): same ordered data; errors agree one
     by one on response path and kind; model locations = specification locations plus repeats. -/
@@ -501,30 +530,34 @@ def ExecRefinesSpecUpToLocations (s : SchemaD) (doc : Doc) (vars : Vars) (w : Wo
     ∃ es', executeSelectionSetS s doc vars w cf fuel root path sels = .ok (d, es') ∧ ErrsSim es' es
 
 /-- **exec_refines_spec**: for every schema, every document whose fragments can be ranked (no fragment cycle — implied
-    by the certificate `rankedB`, `ranked_of_rankedB`) and whose `@skip`/`@include` conditions can all be evaluated under
-    the variables (`DocEval`/`selsEval`: Boolean literals, variables bound to non-null values), every world — including
-    iterables and `resolve_type`s that raise `ResolverError` while a value is completed (7b8e151) — every fuel and every
-    selection set (fields, aliases, directives, inline fragments AND named fragment spreads): the executor model refines
-    the specification's algorithm. Residue, stated exactly by `ErrSim`: the `locations` of an error may repeat locations
-    already listed. Conditions that can NOT be evaluated (4e87d3d: a field error at the enclosing field) are covered with
-    exact equality for spread-free selection sets by `exec_refines_spec_spreadfree_exact`, which has no such premise; for
-    documents with named spreads that case rests on the correspondence (model = Lean spec = executor on every request). -/
+    by the certificate `rankedB`, `ranked_of_rankedB`), every variables, every world — including iterables and
+    `resolve_type`s that raise `ResolverError` while a value is completed (7b8e151) — every fuel and every selection set
+    (fields, aliases, directives, inline fragments AND named fragment spreads; `@skip`/`@include` conditions that cannot be
+    evaluated at run time included: model and specification fail at the same selection set with the same single error,
+    `collect_refines_spec_fail`): the executor model refines the specification's algorithm. Residue, stated exactly by
+    `ErrSim`: the `locations` of an error may repeat locations already listed. -/
 theorem exec_refines_spec (s : SchemaD) (doc : Doc) (vars : Vars) (w : World) (rk ek : String → Nat) (B : Nat) (hrk : Ranked doc rk ek B)
-    (hde : DocEval doc vars) (cf fuel : Nat) (root : String) (path : Path) (sels : List Sel) (hse : selsEval vars sels = true) :
+    (cf fuel : Nat) (root : String) (path : Path) (sels : List Sel) :
     ExecRefinesSpecUpToLocations s doc vars w cf fuel root path sels :=
-  fun d es h => ((executeFields_sim s doc vars w rk ek B hrk hde cf fuel) root path sels sels (Rep.refl _) hse).2 d es h
+  fun d es h => ((executeFields_sim s doc vars w rk ek B hrk cf fuel) root path sels sels (Rep.refl _)).2 d es h
+
+/-- the ROOT selection set: when the model answers `data = null` with the single directive error, so does the specification -/
+theorem exec_refines_spec_root_failure (s : SchemaD) (doc : Doc) (vars : Vars) (w : World) (rk ek : String → Nat) (B : Nat)
+    (hrk : Ranked doc rk ek B) (cf fuel : Nat) (root : String) (path : Path) (sels : List Sel) (k : ErrKind) (l : Option (List Nat))
+    (i : List Err) (h : executeFields s doc vars w cf fuel root path sels = .error (.raised k l i)) :
+    executeSelectionSetS s doc vars w cf fuel root path sels = .error (.raised k l i) :=
+  ((executeFields_sim s doc vars w rk ek B hrk cf fuel) root path sels sels (Rep.refl _)).1 k l i h
 
 
-/-- the same, from the decidable certificates that the driver evaluates on every accepted document -/
+/-- the same, from the decidable certificate that the driver evaluates on every accepted document -/
 theorem exec_refines_spec_certified (s : SchemaD) (doc : Doc) (vars : Vars) (w : World) (h : rankedB doc = true)
-    (hd : docEvalB doc vars = true) (cf fuel : Nat) (root : String) (path : Path) (sels : List Sel) (hse : selsEval vars sels = true) :
+    (cf fuel : Nat) (root : String) (path : Path) (sels : List Sel) :
     ExecRefinesSpecUpToLocations s doc vars w cf fuel root path sels :=
-  exec_refines_spec s doc vars w _ _ _ (ranked_of_rankedB doc h).1 (docEval_of_bool doc vars hd).1 cf fuel root path sels hse
+  exec_refines_spec s doc vars w _ _ _ (ranked_of_rankedB doc h).1 cf fuel root path sels
 
 /-- non-vacuity: the quirk witness `{ ... on Query { ...F } ...F }  fragment F on Query { a }` is certified, the model
     DOES respond on it, and the theorem applies -/
 example : rankedB qDoc = true := by decide
-example : docEvalB qDoc [] = true := by decide
 example : (match executeFields qSchema qDoc [] constWorld 5 5 "Query" []
     [.inline (some "Query") [] [.spread "F" []], .spread "F" []] with | .ok _ => true | .error _ => false) = true := by decide
 
